@@ -10,7 +10,7 @@ segregator<threshold<X>, threshold<Y>, Z>.  Every leaf / tracker gets a distinct
 import hashlib
 
 UNARY = ["AD", "TS", "AL", "TR", "REF", "ANY", "MR", "SEGN"]
-ALL_TYPED = (1 << 12) - 1
+ALL_TYPED = (1 << 15) - 1
 
 
 def name(t):
@@ -314,18 +314,20 @@ def any_tracked_noncomposable(t):
     return any(any_tracked_noncomposable(c) for c in t[1:])
 
 
-def typed_mode(t, tier):
+def typed_mode(t, tier, cfg="rwd"):
     """0 none, 1 reduced set (5 value types), 2 full matrix (5 sizes x 7 alignments), 3 mini (2 value types)"""
     d = depth(t)
-    if uses_custom(t) and d >= 3:
+    if uses_custom(t) and d >= (2 if tier == "quick" else 3):
         return 0
     if tier == "quick":
+        if cfg == "dbg":
+            return {0: 2}.get(d, 3)
         return {0: 2, 1: 1}.get(d, 3)
     return {0: 2, 1: 2, 2: 1}.get(d, 3)
 
 
-def typed_parts(t, tier):
-    return {0: [], 1: ["r"], 2: ["1", "24", "65535", "65536", "70000"], 3: ["m"]}[typed_mode(t, tier)]
+def typed_parts(t, tier, cfg="rwd"):
+    return {0: [], 1: ["r"], 2: ["1", "24", "65535", "65536", "70000"], 3: ["m"]}[typed_mode(t, tier, cfg)]
 
 
 def comp_source(idx, t):
@@ -340,7 +342,7 @@ def comp_source(idx, t):
              f"static void reg(registry& r) {{",
              f"  comp c; c.name = \"{n}\"; c.type = \"{T}\";",
              f"  c.n_leaves = {em.nl}; c.n_trackers = {em.nt}; c.n_align = {em.na}; c.n_seg = {em.ns}; c.depth = {depth(t)};",
-             f"  c.has_null = {'true' if has_null(t) else 'false'}; c.stateless = {'true' if uses_stateless(t) else 'false'};"]
+             f"  c.has_null = {'true' if has_null(t) else 'false'}; c.stateless = {'true' if uses_stateless(t) else 'false'}; c.root_aligned = {'true' if t[0] == 'AL' else 'false'};"]
     for j, m in enumerate(em.tracker_mask[:4]):
         lines.append(f"  c.tracker_mask[{j}] = {m}u;")
     for j, a in enumerate(em.align_cap[:4]):
@@ -370,7 +372,7 @@ def group_source(gid, members):
 
 TK = {"UNIQUE": 0, "UNIQUE_ANY": 1, "UARRAY": 2, "UARRAY_ANY": 3, "POLY": 4, "POLY_ANY": 5, "SHARED": 6, "STD": 7,
       "STD_ANY": 8, "DEALLOC": 9, "DEALLOC_ARR": 10, "DEALLOC_POLY": 11}
-ANY_KINDS = (1 << 1) | (1 << 3) | (1 << 5) | (1 << 8)
+ANY_KINDS = (1 << 1) | (1 << 3) | (1 << 5) | (1 << 8) | (1 << 13)
 
 
 def typed_mask(t, poly_any_ok=False, any_tracked_ok=False):
